@@ -289,7 +289,7 @@ def _recv_is_metadata(tr, it):
 
 
 # ---------------------------------------------------------------------- P4
-@rule('P4', floor=3, title='`A if p is None else B`: the non-None branch uses the parameter that was tested')
+@rule('P4', floor=1, title='`A if p is None else B`: the non-None branch uses the parameter that was tested')
 def p4(ctx):
     obs = []
     for f in ctx.prog.all_funcs():
@@ -298,11 +298,14 @@ def p4(ctx):
             if not isinstance(n, ast.IfExp):
                 continue
             t = n.test
-            if not (isinstance(t, ast.Compare) and len(t.ops) == 1 and isinstance(t.ops[0], (ast.Is, ast.IsNot))
-                    and isinstance(t.left, ast.Name) and isinstance(t.comparators[0], ast.Constant)
-                    and t.comparators[0].value is None):
+            if not (isinstance(t, ast.Compare) and len(t.ops) == 1 and isinstance(t.ops[0], (ast.Is, ast.IsNot))):
                 continue
-            p = t.left.id
+            l, r = t.left, t.comparators[0]
+            if isinstance(l, ast.Constant) and l.value is None and isinstance(r, ast.Name):
+                l, r = r, l         # `None is p`
+            if not (isinstance(l, ast.Name) and isinstance(r, ast.Constant) and r.value is None):
+                continue
+            p = l.id
             if p not in params:
                 continue
             other = n.orelse if isinstance(t.ops[0], ast.Is) else n.body
@@ -604,4 +607,93 @@ def p5(ctx):
                       'the statement can fail with "no such %s"' %
                       (kind, name, ' (and is dropped by another method)' if (kind, name) in dropped else '', kind),
                       e.fn.loc(e.node)))
+    return obs
+
+
+# ---------------------------------------------------------------------- P6
+@rule('P6', floor=1, title='a sharded cache hands its shards only the settings its caller supplied (an explicit default would '
+                           'override what the directory stores)')
+def p6(ctx):
+    """Cache.__init__ layers explicit arguments over the stored settings and writes them back.  A FanoutCache that
+    passes `name=<default>` explicitly when its caller did not give `name` resets the stored value of every shard on
+    each reopen / unpickle."""
+    f = ctx.method('FanoutCache', '__init__')
+    sites = {}
+    n = 0
+    for p in ctx.paths(f, 'plain'):
+        for e in p.trace:
+            if not (e.kind == 'NEW' and e.d['name'] == 'Cache'):
+                continue
+            n += 1
+            for name, v in e.d['kwargs'].items():
+                if name in ('directory', 'timeout', 'disk'):
+                    continue        # not stored settings
+                bad = None
+                for x in deep_values(v, p.trace):
+                    if x.k == 'mcall' and x.a[0] in ('pop', 'get', 'setdefault') and isinstance(x.a[1], int):
+                        ev = p.trace[x.a[1]]
+                        r = ev.d.get('recv')
+                        if r is not None and r.k == 'param' and r.a[0].startswith('**') and len(ev.d['args']) >= 2:
+                            bad = ev
+                    if x.k == 'modconst' and 'SETTINGS' in x.a[1]:
+                        bad = e
+                sites.setdefault(name, bad if bad is not None else sites.get(name))
+                if bad is not None:
+                    sites[name] = bad
+    if n == 0:
+        raise AnalysisError('P6: FanoutCache.__init__ creates no Cache')
+    obs = []
+    for name, bad in sorted(sites.items()):
+        obs.append(Ob('P6', 'FanoutCache.__init__/explicit-default:%s' % name, bad is None,
+                      'every shard is created with %s=<value with a built-in fallback> even when the caller did not '
+                      'supply %s: the explicit argument overrides the value stored in the directory, so reopening or '
+                      'unpickling a FanoutCache created with a non-default %s resets it for every handle' %
+                      (name, name, name), f.loc(bad.node) if bad is not None else f.loc()))
+    if not obs:
+        obs.append(Ob('P6', 'FanoutCache.__init__/no-derived-settings', True, '', f.loc(), nontrivial=False))
+    return obs
+
+
+# ---------------------------------------------------------------------- P7
+@rule('P7', floor=6, title='tables, the unique key index and the counter triggers are created on every path of __init__')
+def p7(ctx):
+    """`CREATE ... IF NOT EXISTS` is what makes an interrupted first initialisation (or a directory from an older
+    version) heal on the next open; guarding the statements by "fresh database" leaves it broken for good."""
+    init = ctx.method('Cache', '__init__')
+    seen = {}
+    paths = [p for p in ctx.paths(init, 'plain') if p.kind in ('return', 'next')]
+    if not paths:
+        raise AnalysisError('P7: Cache.__init__ has no normal path')
+    for p in paths:
+        for e in sql_events(p.trace):
+            st = e.d['stmt']
+            if st is None:
+                continue
+            if st.kind == 'create_table':
+                seen.setdefault(('table', st.table), e)
+            elif st.kind == 'create_index' and st.unique:
+                seen.setdefault(('unique index', st.name), e)
+            elif st.kind == 'create_trigger':
+                seen.setdefault(('trigger', st.name), e)
+    obs = []
+    for (kind, name), e in sorted(seen.items()):
+        missing = None
+        for p in paths:
+            have = False
+            for x in sql_events(p.trace):
+                st = x.d['stmt']
+                if st is not None and ((kind == 'table' and st.kind == 'create_table' and st.table == name) or
+                                       (kind == 'unique index' and st.kind == 'create_index' and st.name == name) or
+                                       (kind == 'trigger' and st.kind == 'create_trigger' and st.name == name)):
+                    have = True
+            if not have:
+                missing = p
+                break
+        ine = 'IF NOT EXISTS' in (e.d['stmt'].text or '').upper()
+        obs.append(Ob('P7', 'Cache.__init__/%s:%s' % (kind, name), missing is None and ine,
+                      '%s %s is %s: a directory whose first initialisation was interrupted before this statement (or '
+                      'that was created by another version) never gets it, so counters stop following the rows / '
+                      'lookups fail for good' % (kind, name, 'created only on some paths of __init__' if missing
+                                                 is not None else 'created without IF NOT EXISTS'),
+                      e.fn.loc(e.node), fmt_trace(missing.trace) if missing is not None else None))
     return obs
